@@ -216,6 +216,8 @@ func checks() map[string]CheckDef {
 				Labels: []string{"C06/sync-invariant-preserved-by-every-event"}},
 			{Pkg: "internal/transports/p2p/peer", Func: "HarnessExpHeadersBatch", Quick: [][]int64{{1, 1}, {2, 1}, {2, 2}, {3, 1}}, Thorough: [][]int64{{3, 2}, {4, 1}, {3, 3}},
 				Labels: []string{"C06x/no-progress-no-request", "C06x/progress-is-followed-by-exactly-one-request", "C06x/follow-up-carries-the-locator-and-the-next-checkpoint"}},
+			{Pkg: "internal/transports/p2p/peer", Func: "HarnessExpInv",
+				Labels: []string{"C06x/announced-unknown-block-is-requested", "C06x/nothing-requested-otherwise"}},
 			{Pkg: "transports/p2p/p2psync", Func: "HarnessStalledSyncPeer", Quick: [][]int64{{1, 0}, {0, 1}}, Thorough: [][]int64{{2, 0}, {3, 0}, {1, 1}},
 				Labels: []string{"C06/stalled-sync-peer-is-disconnected", "C06/a-sync-peer-is-chosen-after-a-stall", "C06/sync-peer-within-the-stall-limit-or-caught-up-is-kept"}},
 			{Pkg: "transports/p2p/p2psync", Func: "HarnessHeadersBatch", Quick: [][]int64{{2, 1}, {2, 2}}, Thorough: [][]int64{{3, 2}, {4, 1}},
